@@ -236,7 +236,7 @@ func genProduces(t *rapid.T, min, max int) []string {
 }
 
 // GenHandler draws one API (1-3 operations, own or inherited produces, default type JSON or another) and
-// 4-8 requests with structured Accept headers aimed at the declared types.
+// 6-12 requests with structured Accept headers aimed at the declared types.
 func GenHandler(t *rapid.T) HCase {
 	var c HCase
 	if rapid.IntRange(0, 2).Draw(t, "global") == 0 {
@@ -253,7 +253,7 @@ func GenHandler(t *rapid.T) HCase {
 		}
 		c.Ops = append(c.Ops, op)
 	}
-	nreq := rapid.IntRange(4, 8).Draw(t, "nreq")
+	nreq := rapid.IntRange(6, 12).Draw(t, "nreq")
 	for i := 0; i < nreq; i++ {
 		rq := HReq{Op: rapid.IntRange(0, nops-1).Draw(t, "op")}
 		offers, _ := c.declared(rq.Op)
